@@ -12,6 +12,8 @@ def run(ctx):
     plan = [
         {"scens": wcat.token_scenarios(("file", "process")), "policies": ("FIFO", "LIFO") if q else ("FIFO", "LIFO", "JOBS"), "bound": 1 if q else 2, "demote": True, "cap": 40000},
         {"scens": wcat.token_and_dependency_scenarios(), "policies": ("FIFO", "JOBS"), "bound": 1, "demote": True},
+        # the token defined again by a second process with a larger capacity while a job waits for more than the old one; real and coarse time stamps
+        {"scens": wcat.token_redefined_scenarios(), "policies": ("FIFO", "LIFO") + wcat.POL_PROC[:2] + wcat.POL_EAGER, "bound": 1},
         {"scens": wcat.token_again_scenarios(), "policies": ("FIFO", "LIFO", "JOBS"), "bound": 1, "demote": True},
         {"scens": two, "policies": wcat.POL_WIDE, "bound": 1, "cap": 60000},
         # one deviation, including the "long preemption" (the default actor is descheduled until nothing else can run), under
